@@ -1,14 +1,21 @@
 package unitsim
 
 import (
+	"io"
 	"testing"
+
+	"github.com/sirupsen/logrus"
 
 	"verif/sim/kernel"
 )
 
 // TestWorker is the entry point used by the driver (cmd/verif).
 func TestWorker(t *testing.T) {
+	logrus.SetOutput(io.Discard)
 	kernel.WorkerMain(t, map[string]kernel.CheckFn{
 		"C38a": checkC38a(t),
+		"C37a": checkC37a,
+		"C48":  checkC48(t),
+		"C45":  checkC45(t),
 	})
 }
